@@ -93,7 +93,7 @@ def run(chk):
         count_member = next(iter({"num_segments_"} & set(x["name"] for x in rec["fields"])), None)
         expected_flags = [fl for fl in ORDERED if order >= NEED[fl]]
         # ---------------------------------------------------------------- R1
-        check_builder(chk, F, cls, rebuild, flags_member, dim, expected_flags)
+        roles, members = check_builder(chk, F, cls, rebuild, flags_member, dim, expected_flags, dirty, count_member)
         # ---------------------------------------------------------------- R2
         gi = F.func1(cls, "generateInitialGuess")
         evs = [f for f in F.funcs(cls, "evaluate") if len(f["params"]) == 7]
@@ -150,6 +150,41 @@ def run(chk):
             if f.get("access") != "public" or f.get("static") or f.get("kind") == "dtor":
                 continue
             if f.get("const") and f.get("kind") != "ctor":
+                continue
+            if f.get("copyctor") or f.get("kind") == "copyassign":
+                # copy operations: the cache is consistent with its inputs in the copy iff it was in the source - provided the
+                # inputs, the cached members and the dirty flag all end as copies from the same source (pointers re-bound
+                # as C15-R2 requires); decided by the provenance interpretation, whatever helpers the operation uses
+                from ..own import Sim, Unknown
+                from . import c15
+                import itertools
+                selfptr = {}
+                for g_ in F.funcs(cls):
+                    for path, how, node in E.function_writes(g_):
+                        if path[0] == "this" and len(path) == 2 and (F.field(cls, path[1]) or {}).get("ty", {}).get("c") == "ptr":
+                            for n_ in walk(write_rhs(node)):
+                                if n_.get("k") == "un" and n_["op"] == "&" and is_this_mem(n_["e"]):
+                                    selfptr[path[1]] = strip_copy(n_["e"])["field"]
+                owning = [x["name"] for x in rec["fields"] if x["ty"].get("std") == "unique_ptr"]
+                is_ctor = bool(f.get("copyctor"))
+                bad = None
+                for cfg in [dict(zip(sorted(selfptr), c_)) for c_ in itertools.product(("own", "ext"), repeat=len(selfptr))]:
+                    S_ = Sim(F, cls, {"ptr": cfg, "other_ws": True, "this_ws": not is_ctor, "self": False}, selfptr, owning, is_ctor, other_id=f["params"][0]["id"])
+                    try:
+                        S_.run(f)
+                    except Unknown as ex:
+                        raise Broken("%s: %s" % (f["full"], ex))
+                    for m_ in sorted((set(ins) | set(outs) | {dirty})):
+                        v = S_.state.get(m_)
+                        if m_ in selfptr:
+                            want = ("addr", "this", selfptr[m_]) if cfg[m_] == "own" else ("ext", m_)
+                        else:
+                            want = ("val", "other", m_)
+                        if v != want and m_ in S_.state:
+                            bad = "%s ends as %s instead of %s" % (m_, c15.show(v), c15.show(want))
+                chk.saw(f)
+                chk.ob("C09-R3", "%s (%d params): layout inputs written => cache dirty or rebuilt" % (f["full"], len(f["params"])), bad is None, loc(f),
+                       bad or "inputs, cached layout and dirty flag are all copied from the same source", construct="%s::%s/%d/layout-stale" % (cls, f["name"], len(f["params"])))
                 continue
             fl = c12.layout_flow(F, E, cls, dirty, ins, outs)
             fld = F.field(cls, dirty)
@@ -267,84 +302,183 @@ def offset_starts_at(f, call, off_id, outs):
     return isinstance(e, dict) and e.get("k") == "mem" and is_this_mem(e) and e["field"] in outs
 
 
-def check_builder(chk, F, cls, rebuild, flags_member, dim, expected_flags):
+MAP_API = {"getUnconstrainedDim": "dof", "toTau": "toTau", "toTime": "toTime", "backward": "backward", "toUnconstrained": "toUnconstrained", "toPhysical": "toPhysical",
+           "backwardGrad": "backwardGrad"}
+
+
+def map_hook(c, e, env, I):
+    """calls into the (user-replaceable) time / spatial maps are opaque functions of their scalar arguments"""
+    nm = c.get("name")
+    if nm in MAP_API and e.get("obj") is not None:
+        args = [I.ev(a, env) for a in e["args"]]
+        if all(isinstance(a, sp.Basic) for a in args):
+            return sp.Function(MAP_API[nm])(*args)
+    return NotImplemented
+
+
+def check_builder(chk, F, cls, rebuild, flags_member, dim, expected_flags, dirty, count_member):
+    """R1 on the meaning of the layout builder, not on its shape: the builder is interpreted once per kind of waypoint
+    (first / inner / last) and per assignment of the flags it consults (paths.explore), with helper functions followed in
+    place; what is compared is the set of entries pushed, the running offset and the two totals."""
     chk.saw(rebuild)
+    from .. import paths
+    n = sp.Symbol(count_member, integer=True, positive=True)
     dofF = sp.Function("dof")
-    optF = sp.Function("optimised")
-    cntS = sp.Symbol("blocks", integer=True, nonnegative=True)
-
-    def on_call(c, e, env, I):
-        nm = c.get("name")
-        if nm == "getUnconstrainedDim":
-            return dofF(I.ev(e["args"][0], env))
-        if nm == "isSpatialOptimized":
-            return sp.Eq(optF(I.ev(e["args"][0], env)), 1)
-        if nm == "countOptimizedDerivativeBlocks":
-            return cntS
-        return NotImplemented
-
-    I = Interp(F, cls, on_call=on_call, branch_oracle=lambda s, c, I_: False if "<= 0" in pp(s["cond"]) else None)
-    I.field_assumptions["num_segments_"] = {"positive": True}
-    try:
-        I.run_body(rebuild, {})
-    except Unsupported as ex:
-        raise Broken("layout builder not analysable: %s" % ex)
-    n = sp.Symbol("num_segments_", integer=True, positive=True)
     where = loc(rebuild)
-    ok_loop = len(I.loops) == 1
-    det = ""
-    if ok_loop:
-        L = I.loops[0]
-        i = L.var
-        push = [e for e in L.effects if e.op == "push_back"]
-        car = L.carried.get("offset")
-        offs = [e for e in L.effects if e.target == "$offset"]
-        ok_range = L.lo == 0 and sym.is_zero(L.hi - n) and L.cond_op == "<=" and L.step == 1
-        chk.ob("C09-R1", "%s layout loop visits waypoints 0..N inclusive" % cls, ok_range, where, "%s %s %s" % (L.lo, L.cond_op, L.hi), construct=cls + "/layout/range")
-        chk.ob("C09-R1", "%s offsets start right after the N time variables" % cls, car is not None and sym.is_zero(car[1] - n), where, "initial offset %s" % (car[1] if car else None), construct=cls + "/layout/first-offset")
-        okp = len(push) == 1 and isinstance(push[0].value, Struct)
-        if okp:
-            v = push[0].value.f
-            okp = sym.is_zero(v.get("point_index") - i) and sym.is_zero(v.get("offset") - car[0]) and sym.is_zero(v.get("dof") - dofF(i))
-        chk.ob("C09-R1", "%s entry = (waypoint index, running offset, that waypoint's unconstrained width)" % cls, bool(okp), where, str(push[0].value.f) if push and isinstance(push[0].value, Struct) else "",
-               construct=cls + "/layout/entry")
-        oka = len(offs) == 1 and offs[0].op == "+=" and sym.is_zero(offs[0].delta - dofF(i))
-        chk.ob("C09-R1", "%s running offset advances by that width" % cls, oka, where, str(offs[0].delta) if offs else "", construct=cls + "/layout/advance")
-        skips = L.locals.get("_skip_guards", [])
-        oks = len(skips) == 1 and skips[0][1] == sp.Not(sp.Eq(optF(i), 1))
-        chk.ob("C09-R1", "%s only non-optimised waypoints are skipped" % cls, oks, where, str(skips), construct=cls + "/layout/skip")
-        fin = {e.target: e for e in I.effects if e.op == "=" and not e.guards or e.op == "="}
-        doff = [e for e in I.effects if e.op == "=" and isinstance(e.value, sp.Basic) and e.value == car[0] + offs[0].delta] if offs else []
-        # after the loop the carried symbol denotes the final offset: derivative offset = final offset
-        d_eff = [e for e in I.effects if e.op == "=" and isinstance(e.value, sp.Basic) and e.value.has(car[0]) and not e.value.has(cntS)]
-        t_eff = [e for e in I.effects if e.op == "=" and isinstance(e.value, sp.Basic) and e.value.has(cntS)]
-        okd = len(d_eff) == 1 and sym.is_zero(d_eff[0].value - (car[0] + offs[0].delta)) if offs else False
-        chk.ob("C09-R1", "%s derivative offset = offset after the last waypoint" % cls, bool(okd), where, str(d_eff[0].value) if d_eff else "", construct=cls + "/layout/derivative-offset")
-        okt = len(t_eff) == 1 and d_eff and sym.is_zero(t_eff[0].value - (d_eff[0].value + cntS * dim))
-        chk.ob("C09-R1", "%s total dimension = derivative offset + (flagged blocks) * DIM" % cls, bool(okt), where, str(t_eff[0].value) if t_eff else "", construct=cls + "/layout/total")
-    else:
-        chk.ob("C09-R1", "%s layout loop found" % cls, False, where, "", construct=cls + "/layout/loop")
-    # which waypoints are optimised
-    iso = F.func1(cls, "isSpatialOptimized")
-    chk.saw(iso)
-    sc = Scope(iso)
-    pairs = []
-    for s in iso["body"]["body"]:
-        if s.get("k") == "if":
-            th = s["then"]["body"][0] if s["then"].get("k") == "block" else s["then"]
-            pairs.append((preds.literal(s["cond"], sc), canon(th["e"], sc)))
-        elif s.get("k") == "return":
-            pairs.append((None, canon(s["e"], sc)))
-    want = [((True, "$p0 == 0"), "this.%s.start_p" % flags_member), ((True, preds.cmp_atom("==", "$p0", "this.num_segments_", False)[1]), "this.%s.end_p" % flags_member), (None, "true")]
-    chk.ob("C09-R1", "%s waypoint 0 / N optimised iff start_p / end_p, inner waypoints always" % cls, pairs == want, loc(iso), str(pairs), construct=cls + "/layout/which")
-    # getDimension returns the total after ensuring the cache
+
+    def run(kind, oracle):
+        I = Interp(F, cls, on_call=map_hook)
+        I.field_assumptions[count_member] = {"positive": True}
+        I.case = {"first": kind == "first", "last": kind == "last"}
+        I.path_oracle = oracle
+        try:
+            I.run_body(rebuild, {})
+        except Unsupported as ex:
+            raise Broken("layout builder not analysable: %s" % ex)
+        return I
+
+    fsym = lambda nm: sp.Symbol("%s.%s" % (flags_member, nm))
+    results = {kind: paths.explore(lambda o, kind=kind: run(kind, o)) for kind in ("first", "middle", "last")}
+    facts = {"range": True, "first": True, "entry": True, "advance": True, "clear": True, "doff": True, "total": True, "flags": True}
+    det = {}
+    roles = None
+    pushing = {"first": [], "middle": [], "last": []}
+    members = {}
+    for kind, res in results.items():
+        for assign, I in res:
+            loops = [L for L in I.loops]
+            if len(loops) != 1:
+                raise Broken("layout builder: expected one loop over the waypoints, found %d" % len(loops))
+            L = loops[0]
+            i = L.var
+            ue = c06_upper_excl(L)
+            if not (L.lo == 0 and ue is not None and sym.is_zero(ue - (n + 1))):
+                facts["range"] = False
+                det["range"] = "%s .. %s" % (L.lo, ue)
+            push = [e for e in L.effects if e.op == "push_back"]
+            cont = push[0].target if push else None
+            upd = [e for e in L.effects if e.target.startswith("$")]
+            if len(push) > 1:
+                facts["entry"] = False
+                det["entry"] = "several entries pushed for one waypoint"
+                continue
+            delta = sum((sp.sympify(e.delta) for e in upd if e.delta is not None), sp.Integer(0)) if all(e.delta is not None for e in upd) else None
+            if push:
+                pushing[kind].append(assign)
+                v = push[0].value.f if isinstance(push[0].value, Struct) else {}
+                car = [(nm, cs) for nm, cs in L.carried.items() if any(sp.sympify(x) == cs[0] for x in v.values() if isinstance(x, sp.Basic))]
+                r = {}
+                for fld, x in v.items():
+                    if not isinstance(x, sp.Basic):
+                        continue
+                    if sym.is_zero(x - i):
+                        r["point"] = fld
+                    elif car and sym.is_zero(x - car[0][1][0]):
+                        r["offset"] = fld
+                    elif sym.is_zero(x - dofF(i)):
+                        r["width"] = fld
+                if len(r) != 3 or len(v) != 3 or len(car) != 1:
+                    facts["entry"] = False
+                    det["entry"] = "entry pushed for waypoint %s: %s" % (i, {k_: str(x) for k_, x in v.items()})
+                    continue
+                if roles is None:
+                    roles = dict(r, container=cont, carried=car[0][0])
+                elif {k_: roles[k_] for k_ in r} != r:
+                    facts["entry"] = False
+                    det["entry"] = "field roles differ between paths"
+                if not sym.is_zero(car[0][1][1] - n):
+                    facts["first"] = False
+                    det["first"] = "running offset starts at %s" % car[0][1][1]
+                if delta is None or not sym.is_zero(delta - dofF(i)) or any(e.target != "$" + car[0][0] for e in upd):
+                    facts["advance"] = False
+                    det["advance"] = "offset changes by %s when waypoint %s is entered" % (delta, i)
+                carsym = car[0][1][0]
+            else:
+                if upd:
+                    facts["advance"] = False
+                    det["advance"] = "offset changes (%s) although waypoint %s is skipped" % ([str(e.delta) for e in upd], i)
+                carsym = None
+            if not any(e.op == "clear" for e in I.effects):
+                facts["clear"] = False
+            # the two totals written after the loop
+            finals = {e.target: e.value for e in I.effects if e.op == "=" and e.target not in (dirty,) and isinstance(e.value, sp.Basic) and e.target != cont}
+            if kind == "last":
+                cs = carsym if carsym is not None else (list(L.carried.values())[0][0] if len(L.carried) == 1 else None)
+                fin = (cs + dofF(i)) if push else cs
+                D = [t for t, val in finals.items() if cs is not None and sym.is_zero(val - fin)]
+                cnt = sum(1 for fl in expected_flags if assign.get(fsym(fl)) is True)
+                if len(D) == 2 and len(finals) == 2 and cnt == 0:
+                    continue          # no block flagged: both totals equal the final offset, as they must
+                if len(D) != 1 or len(finals) != 2:
+                    facts["doff"] = False
+                    det["doff"] = "members written after the loop: %s" % {t: str(x) for t, x in finals.items()}
+                    continue
+                T = [t for t in finals if t != D[0]][0]
+                members.setdefault("D", D[0])
+                members.setdefault("T", T)
+                if members["D"] != D[0] or members["T"] != T:
+                    facts["doff"] = False
+                cnt = sum(1 for fl in expected_flags if assign.get(fsym(fl)) is True)
+                if not sym.is_zero(finals[T] - finals[D[0]] - dim * cnt):
+                    facts["total"] = False
+                    det["total"] = "with %s: total - derivative offset = %s, expected %d * %d" % ({str(k_): v_ for k_, v_ in assign.items()}, sp.expand(finals[T] - finals[D[0]]), dim, cnt)
+                consulted = {str(k_)[len(flags_member) + 1:] for k_ in assign} - {"start_p", "end_p"}
+                if consulted != set(expected_flags):
+                    facts["flags"] = False
+                    det["flags"] = "derivative flags consulted: %s" % sorted(consulted)
+    if roles is None:
+        raise Broken("layout builder: no path pushes a layout entry")
+    chk.ob("C09-R1", "%s layout loop visits waypoints 0..N inclusive" % cls, facts["range"], where, det.get("range", ""), construct=cls + "/layout/range")
+    chk.ob("C09-R1", "%s offsets start right after the N time variables" % cls, facts["first"], where, det.get("first", ""), construct=cls + "/layout/first-offset")
+    chk.ob("C09-R1", "%s entry = (waypoint index, running offset, that waypoint's unconstrained width)" % cls, facts["entry"], where, det.get("entry", str(roles)), construct=cls + "/layout/entry")
+    chk.ob("C09-R1", "%s running offset advances by that width exactly when the waypoint is entered" % cls, facts["advance"], where, det.get("advance", ""), construct=cls + "/layout/advance")
+    chk.ob("C09-R1", "%s the layout list is emptied before it is rebuilt" % cls, facts["clear"], where, "", construct=cls + "/layout/clear")
+    sp_, ep_ = fsym("start_p"), fsym("end_p")
+    all_first, all_last = [a for a, _ in results["first"]], [a for a, _ in results["last"]]
+    okw = (all(a.get(sp_) is True for a in pushing["first"]) and all(a.get(sp_) is False for a in all_first if a not in pushing["first"]) and
+           all(a.get(ep_) is True for a in pushing["last"]) and all(a.get(ep_) is False for a in all_last if a not in pushing["last"]) and
+           len(pushing["middle"]) == len(results["middle"]) and bool(pushing["first"]) and bool(pushing["last"]))
+    chk.ob("C09-R1", "%s waypoint 0 / N optimised iff start_p / end_p, inner waypoints always" % cls, okw, where,
+           "entered: first on %d of %d flag assignments, last on %d of %d, inner on %d of %d" % (len(pushing["first"]), len(all_first), len(pushing["last"]), len(all_last), len(pushing["middle"]), len(results["middle"])),
+           construct=cls + "/layout/which")
+    chk.ob("C09-R1", "%s derivative offset = offset after the last waypoint" % cls, facts["doff"] and "D" in members, where, det.get("doff", str(members)), construct=cls + "/layout/derivative-offset")
+    chk.ob("C09-R1", "%s total dimension = derivative offset + (flagged blocks the order has) * DIM, for every flag assignment" % cls, facts["total"] and facts["flags"], where,
+           det.get("total", det.get("flags", "%d assignments" % len(results["last"]))), construct=cls + "/layout/total")
+    # getDimension: the cached total after ensuring the cache, on both states of the dirty flag
     gd = F.func1(cls, "getDimension")
-    cd = [g for c, g in F.callees(gd)]
-    ok = len(cd) == 1
-    if ok:
-        body = cd[0]["body"]["body"]
-        ok = len(body) == 2 and callee(body[0].get("e", {})).get("name") == "ensureLayoutCache" and body[1].get("k") == "return" and is_this_mem(body[1]["e"])
-    chk.ob("C09-R1", "%s::getDimension reports the cached total after ensuring the cache" % cls, ok, loc(gd), "", construct=cls + "/getDimension")
+    chk.saw(gd)
+
+    def run_gd(oracle):
+        I = Interp(F, cls, on_call=map_hook)
+        I.field_assumptions[count_member] = {"positive": True}
+        I.case = {"first": False, "last": True}
+        I.path_oracle = oracle
+        try:
+            return I, I.run_body(gd, {})
+        except Unsupported as ex:
+            raise Broken("getDimension not analysable: %s" % ex)
+    okg = "T" in members
+    seen = set()
+    detg = ""
+    for assign, (I, ret) in (paths.explore(run_gd) if okg else []):
+        dflag = assign.get(sp.Symbol(dirty))
+        seen.add(dflag)
+        tw = [e.value for e in I.effects if e.target == members["T"] and e.op == "="]
+        if dflag is True:
+            good = bool(tw) and isinstance(ret, sp.Basic) and sym.is_zero(ret - tw[-1])
+        else:
+            good = not tw and isinstance(ret, sp.Basic) and ret == sp.Symbol(members["T"], integer=True)
+        if not good:
+            okg = False
+            detg = "with the cache %s it returns %s" % ("dirty" if dflag else "clean", ret)
+    chk.ob("C09-R1", "%s::getDimension reports the cached total after ensuring the cache" % cls, okg and seen == {True, False}, loc(gd), detg, construct=cls + "/getDimension")
+    return roles, members
+
+
+def c06_upper_excl(L):
+    if L.step != 1 or L.hi is None:
+        return None
+    return L.hi if L.cond_op == "<" else (L.hi + 1 if L.cond_op == "<=" else None)
 
 
 def check_spatial_and_time(chk, F, cls, f, sc, is_guess):
